@@ -89,6 +89,7 @@ do_pair(int c, const struct rc_day *a, const struct rc_day *b, struct dt_dt_s va
 			cal_text(c, b, tb, sizeof(tb));
 			snprintf(cas, sizeof(cas), "diff %d %d %d", c, a->rd, b->rd);
 			snprintf(cmd, sizeof(cmd), "ddiff%s%s %s %s -f %%db", cal_ifmt[c] ? " -i " : "", cal_ifmt[c] ? cal_ifmt[c] : "", ta, tb);
+			/* the same pair written -i %s SECONDS is the same two values */
 			if (e1 == e2) {
 				snprintf(exp, sizeof(exp), "%db", e1);
 			} else {
@@ -150,7 +151,7 @@ do_bizda_name(int y, int m, int bd, int replay)
 	}
 	memset(got, 0, sizeof(got));
 	dt_strfdt(got[B_F], sizeof(got[B_F]), "%F", v);
-	snprintf(got[B_DAISY], sizeof(got[B_DAISY]), "%u", dt_dconv(DT_DAISY, v.d).daisy);
+	snprintf(got[B_DAISY], sizeof(got[B_DAISY]), "%u", obs_daisy(v));
 	dt_strfdt(got[B_DFLT], sizeof(got[B_DFLT]), NULL, v);
 	*c_eval += 3;
 	ex_outcome(ex_hash(got, sizeof(got)));
@@ -220,15 +221,16 @@ struct bind_s {
 static const struct bind_s binds[] = {
 	{0, C_YMD, 2012, 3, 5, NULL}, {0, C_YMD, 2012, 3, 6, NULL}, {0, C_YMD, 2012, 3, 7, NULL}, {0, C_YMD, 2012, 3, 8, NULL},
 	{0, C_YMD, 2012, 3, 9, NULL}, {0, C_YMD, 2012, 3, 10, NULL}, {0, C_YMD, 2012, 3, 11, NULL},
-	{1, C_BIZDA, 0, 0, 0, "%F"}, {2, C_YMD, 0, 0, 0, "bizda"}, {2, C_YMD, 0, 0, 0, "%Y-%m-%db"},
+	{1, C_BIZDA, 0, 0, 0, "%F"}, {2, C_YMD, 0, 0, 0, "bizda"}, {2, C_YMD, 0, 0, 0, "%Y-%m-%db"}, {0, C_EPOCH, 2012, 3, 9, NULL},
 	/* thorough only from here */
+	{0, C_EPOCH, 2012, 3, 10, NULL},
 	{0, C_YMD, 1601, 1, 1, NULL}, {0, C_YMD, 1601, 1, 6, NULL}, {0, C_YMD, 1601, 1, 7, NULL}, {0, C_YMD, 4095, 12, 31, NULL},
 	{0, C_YMD, 4095, 12, 29, NULL}, {0, C_YMD, 4095, 12, 30, NULL}, {0, C_YMD, 2100, 2, 28, NULL},
 	{0, C_YWD, 2012, 3, 9, NULL}, {0, C_YWD, 2012, 3, 10, NULL}, {0, C_YD, 2012, 3, 9, NULL}, {0, C_YD, 2012, 3, 11, NULL},
 	{0, C_YMCW, 2012, 3, 9, NULL}, {0, C_YMCW, 2012, 3, 10, NULL}, {0, C_BIZDA, 2012, 3, 9, NULL}, {0, C_BIZDA, 2012, 3, 5, NULL},
 	{1, C_BIZDA, 0, 0, 0, "ywd"}, {1, C_BIZDA, 0, 0, 0, "%F %a %db"},
 };
-#define NBIND_QUICK	10
+#define NBIND_QUICK	11
 #define NBIND		((int)(sizeof(binds) / sizeof(*binds)))
 
 static void
@@ -374,7 +376,7 @@ replay_binding(const char *cas)
 }
 
 /* calendars of the pairs and their reach */
-static const int pair_cal[] = {C_YMD, C_YWD, C_YD, C_YMCW, C_BIZDA, C_LDN};
+static const int pair_cal[] = {C_YMD, C_YWD, C_YD, C_YMCW, C_BIZDA, C_LDN, C_EPOCH};
 #define NPCAL	((int)(sizeof(pair_cal) / sizeof(*pair_cal)))
 #define REACH_MAX	1200	/* on the window days; 400 elsewhere */
 
@@ -428,7 +430,7 @@ main(int argc, char *argv[])
 		"default output, must be the DD-th Monday-Friday state of the month (an index beyond the month's count is no date: skipped, counted); every "
 		"Monday-Friday state as ymd text printed with %%Y-%%m-%%db and with the conversion format 'bizda' must give its bizda name. "
 		"non-trivial (2) = a weekend day lies at an end of or inside the interval");
-	ex_meta("bound", "%s tier: (2) all 911,280 days A x B = A+k, |k| <= %d in ymd, |k| <= %d in ywd yd ymcw bizda(Monday-Friday days) ldn; for A in the four 8-year windows "
+	ex_meta("bound", "%s tier: (2) all 911,280 days A x B = A+k, |k| <= %d in ymd, |k| <= %d in ywd yd ymcw bizda(Monday-Friday days) ldn epoch(@SECONDS of the days' midnights); for A in the four 8-year windows "
 		"(1601-08 1897-1904 1997-2004 4088-95) |k| <= 1200 in ymd (B inside or outside the window) and all ordered pairs inside each window; (3) all 29,940 months x 23 indices, all Monday-Friday days x 2 formats; binding runs: %d",
 		ex.thorough ? "thorough" : "quick", reach[0], reach[1], ex.thorough ? NBIND : NBIND_QUICK);
 	ex_meta("ord", "ordered coordinate of a failure class (lo/hi in findings) = day ordinal rd of the first operand A (0 = 1601-01-01); bizda names: rd of the named day; binding classes: rd of the input line");
@@ -480,7 +482,7 @@ main(int argc, char *argv[])
 				}
 				++*c_traces;
 				if (ci == 0 && ex_want_sample()) {
-					ex_sample("pairs from %04d-%02d-%02d %s to every day within %d days (ymd; %d days in ywd yd ymcw bizda ldn) through ddiff -f %%db",
+					ex_sample("pairs from %04d-%02d-%02d %s to every day within %d days (ymd; %d days in ywd yd ymcw bizda ldn epoch) through ddiff -f %%db",
 						  a->y, a->m, a->d, rc_abbr_wday[a->wd], reach[0], reach[1]);
 				}
 			}
